@@ -164,6 +164,21 @@ def check(run, project):
         boundary = any(isinstance(c, ast.Compare) and len(c.ops) == 1 and isinstance(c.ops[0], ast.Eq) and "path" in norm(c)
                        and ("from_string" in norm(c) or "root" in norm(c).lower()) for c in cj) and \
             any(isinstance(c, ast.Compare) and len(c.ops) == 1 and isinstance(c.ops[0], ast.Is) and norm(c).endswith("value is ...") for c in cj)
+        # ... or by type: the only events typed Command / Response are the `...` events with which the two message walkers
+        # announce themselves (C01-F), so `event.type in {Command, Response}` names exactly the root events of messages
+        def type_set(e):
+            if isinstance(e, ast.Name):   # a module-level constant
+                ds = [a.value for a in mod.tree.body if isinstance(a, ast.Assign) and len(a.targets) == 1 and norm(a.targets[0]) == e.id]
+                e = ds[0] if len(ds) == 1 else e
+            if isinstance(e, ast.Call) and call_name(e) in ("frozenset", "set", "tuple") and len(e.args) == 1:
+                e = e.args[0]
+            if isinstance(e, (ast.Set, ast.Tuple, ast.List)) and all(isinstance(x, ast.Name) for x in e.elts):
+                return {x.id for x in e.elts}
+            return None
+        msg_types = {L.Command.name, L.Response.name}
+        by_type = any(isinstance(c, ast.Compare) and len(c.ops) == 1 and isinstance(c.ops[0], ast.In) and norm(c.left).endswith(".type")
+                      and type_set(c.comparators[0]) == msg_types for c in cj)
+        boundary = boundary or by_type
         run.ob("E3", boundary, "silent return only at a message boundary (root event of the next message)",
                "the silent return is not restricted to the root `...` event of a new message", module=mod, node=rnode,
                func=fn.name, construct="silent return [boundary guard]")
